@@ -129,6 +129,12 @@ fn crash_at(c: &CrashCase, k: usize, st: &mut Stats) -> R {
     // exchanges the export cannot carry: between PUBREC and PUBREL, or awaited without being stored
     let in_flight: BTreeSet<u32> = x.app.out_q1.iter().chain(&x.app.out_q2_rec).chain(&x.app.out_q2_rel).chain(&x.app.out_q2_comp).cloned().collect();
     let exportable = in_flight == exported_ids;
+    // the export carries accepted-but-not-completed messages only: an exchange the application saw complete (acknowledged,
+    // refused with an error PUBREC, erased) must not come back after a restore
+    if let Some(id) = exported_ids.difference(&in_flight).next() {
+        let e = stored.iter().find(|a| a.packet_id() == Some(*id)).map(|a| a.brief()).unwrap_or_default();
+        return Err(fail("C16.completed_exchange_exported", format!("{}", x.v().name()), format!("the export contains {e} although no exchange with id {id} is in flight (in flight: {:?})", in_flight)));
+    }
     // ---- the restored object
     let make = |export: &[AP], what: &str| -> Result<World, Fail> {
         let mut y = World::new(cfg);
@@ -374,7 +380,7 @@ pub fn run(ctx: &Ctx) -> Report {
          (acknowledgements for restored ids by index, QoS2 duplicates, new publishes, Receive Maximum in the CONNACK). Oracle: retransmission == export, restored ids in use, their acks accepted with release, pre-crash QoS2 duplicates suppressed, \
          and the suffix trace equals that of the original object closed and resumed the same way. non-trivial = crash point with non-empty export whose suffix acknowledges a restored id; distinct by (prefix, suffix)",
     );
-    let n = ctx.tier.pick(40_000, 500_000);
+    let n = ctx.tier.pick(80_000, 500_000);
     let (st, v) = search(ctx, "c16.crash", n, strategy, test);
     rep.absorb("crash_points", st, v, false);
     let mut st = Stats::default();
